@@ -16,7 +16,8 @@
                 crate hands out).
   * op sequence `N<k0>,<op>,<op>,...` with op = `T<k>:<a>-<b>:<k'>` (add_transition),
                 `D<k>:<k'>` (set_default_successor), `F<k>` (mark_final),
-                `B` (call build() here and drop the result: build takes &mut self)
+                `B` (call build() here and drop the result: build takes &mut self but leaves the
+                builder unchanged, so the model treats `B` as a no-op)
   * table       `size|alpha|[e00,e01,..];[e10,..];...`  (size(), alphabet_size(), eval(s,c) rows)
   * ctb script  `-` (empty) or `;`-joined `D<i>:<d>` (set_default) / `S<i>:[c>v,c>v,...]`
                 (set_successors)
@@ -146,10 +147,11 @@ def pTable (t : CompactTable) : String :=
 /-! ### evaluation -/
 
 def runOps (k0 : Nat) (ops : List (Option BuilderOp)) : Builder :=
-  ops.foldl (fun b op => match op with | some op => b.step op | none => b.buildMut) (Builder.new k0)
+  ops.foldl (fun b op => match op with | some op => b.step op | none => b) (Builder.new k0)
 
-/-- the sequence without `B` (only then does the C13 specification apply) -/
-def pureOps (ops : List (Option BuilderOp)) : Option (List BuilderOp) := ops.mapM id
+/-- the calls other than `build()`: the C13 specification of a sequence with intermediate builds
+    is that of the sequence without them (Props/C13 `build_any_sequence`) -/
+def pureOps (ops : List (Option BuilderOp)) : Option (List BuilderOp) := some (ops.filterMap id)
 
 def pBuild : Option (Except Err Automaton) → String
   | none => "PANIC"
